@@ -12,8 +12,8 @@ from mc.script import site_of
 ID = 'C04'
 LEVEL = 'model_checking'
 CASE_TIMEOUT = 20
-RULE = ('all cases of mc.pairspace x 4 drivers (diff passive, diff active, full refinement active, get_all_edits '
-        'passive) with every Bounded object monitored at every step; distinct = distinct per-case trace of (class, '
+RULE = ('all cases of mc.pairspace x 7 drivers (diff passive, diff active, full refinement active, get_all_edits '
+        'passive, sub-edits refined out of band after 1/2/3 parent steps) with every Bounded object monitored at every step; distinct = distinct per-case trace of (class, '
         'sequence of exposed ranges) over all objects; non-trivial objects are those observed mid-refinement')
 ASSUMPTIONS = ['an exposure is a bounds() call arriving from outside the object; self/super calls made while one of the '
                'object\'s own bounds()/tighten_bounds() runs are intermediate values',
@@ -31,7 +31,8 @@ MANIFEST = {
     'design_ref': 'DESIGN.md 4/C04, 3.4',
 }
 
-DRIVERS = ('diff_passive', 'diff_active', 'refine_active', 'all_edits_passive')
+DRIVERS = ('diff_passive', 'diff_active', 'refine_active', 'all_edits_passive', 'children_out_of_band_1', 'children_out_of_band_2',
+           'children_out_of_band_3')
 
 
 def drive(name, ta, tb):
@@ -40,6 +41,30 @@ def drive(name, ta, tb):
         d.edited_cost()
     elif name == 'refine_active':
         e = ta.edits(tb)
+        n = 0
+        while e.tighten_bounds():
+            n += 1
+            if n > 100000:
+                raise RuntimeError('livelock in driver')
+        e.bounds()
+    elif name.startswith('children_out_of_band'):
+        # refine the parent k steps, then refine the sub-edits it lists directly (as has_non_zero_cost(), edited_cost() and
+        # get_all_edit_contexts() do for nested edits), then come back to the parent
+        from mc.script import sub_edits
+        k = int(name.rsplit('_', 1)[1])
+        e = ta.edits(tb)
+        for _ in range(k):
+            e.bounds()
+            if not e.tighten_bounds():
+                break
+        e.bounds()
+        for s_ in sub_edits(e):
+            n = 0
+            while s_.tighten_bounds():
+                n += 1
+                if n > 100000:
+                    raise RuntimeError('livelock in driver')
+        e.bounds()
         n = 0
         while e.tighten_bounds():
             n += 1
@@ -62,7 +87,7 @@ def evaluate(case):
             ta = pairspace.build(kind, case['a'], opt)
             tb = pairspace.build(kind, case['b'], opt)
             for drv in DRIVERS:
-                M.reset(active=drv.endswith('active'))
+                M.reset(active=drv.endswith('active') or drv.startswith('children'))
                 try:
                     drive(drv, ta, tb)
                 except CaseTimeout:
